@@ -153,8 +153,8 @@ def encode_op(op, wpos: dict, M: int):
         pw = op.hyperparameters["pauli_word"]
         return rec(name, w, [_lat(op.data[0], M)], [PW[c] for c in pw])
     if name in ONE_PARAM:
-        if name == "GlobalPhase" and not w:
-            w = [1]    # a scalar on the whole register: the same map as e^{-i phi} I on any one wire
+        # a wire-less GlobalPhase is a zero-wire gate (1x1 matrix): ApplyGate multiplies the register by the scalar and
+        # CtrlM of it is the multi-controlled phase on the control wires
         return rec(name, w, [_lat(op.data[0], M)])
     if name in MULTI_PARAM:
         return rec(name, w, [_lat(d, M) for d in op.data])
